@@ -1,5 +1,5 @@
 """C19 — lossy parsing changes only precision: who reads `lossy`, and where (DESIGN §4)."""
-from rules.core import (pol_is_variant, guarded, callee_name, path_conditions, op_expr, show, strip_casts, expr_calls, last_seg)
+from rules.core import (pol_is_variant, guarded, guarded_soft, callee_name, path_conditions, op_expr, show, strip_casts, expr_calls, last_seg)
 from rules.syntax import error_sites
 from rules import extra as X
 
@@ -110,8 +110,8 @@ def run(col, configs, tier):
     for name, facts in configs.items():
         col.set_config(name)
         guarded(col, rule_who_lossy, facts)
-        guarded(col, X.rule_lossy_independent_shortcuts, facts)
-        guarded(col, X.rule_lossy_marker, facts)
-        guarded(col, X.rule_lossy_rounds, facts)
-        guarded(col, X.rule_lossy_only_removes_work, facts)
-        guarded(col, X.rule_reparse_skips_zeros, facts)
+        guarded_soft(col, X.rule_lossy_independent_shortcuts, facts)
+        guarded_soft(col, X.rule_lossy_marker, facts)
+        guarded_soft(col, X.rule_lossy_rounds, facts)
+        guarded_soft(col, X.rule_lossy_only_removes_work, facts)
+        guarded_soft(col, X.rule_reparse_skips_zeros, facts)
